@@ -146,7 +146,7 @@ def _closure_steps(F, b, t):
     return out
 
 
-def _root_producer(F, b, t, depth=0):
+def _root_producer(F, b, t, depth=0, allow_param=False):
     """identity of the fallible computation whose error is consumed: the call that first produced the Result, followed by
     the fallible steps chained onto it with `and_then` (`a>b`).  Result -> Result adaptors are followed back through their
     receiver, so respelling a combinator chain does not change the identity of a site, while absorbing the error of a
@@ -158,6 +158,31 @@ def _root_producer(F, b, t, depth=0):
         import boolsum
         cb = F.body(boolsum.closure_def_of_type(b.opty(t["args"][0])) or "")
         if cb is not None:
+            # `let solve = |start: Result<..>| start.and_then(|x| x.iterate(..)); solve(Self::init(..))`: the chain of the closure's own
+            # result with its parameter replaced by the chain of the actual argument
+            rets = [ct for _bi, ct in cb.calls() if ct["dest"]["l"] == 0 and not ct["dest"]["p"]]
+            if len(rets) == 1 and depth < 6:
+                chain = _root_producer(F, cb, rets[0], depth + 1, True)
+                head, _, rest = chain.partition(">")
+                if head.startswith("$") and head[1:].isdigit() and len(t["args"]) == 2 and t["args"][1].get("k") in ("copy", "move"):
+                    defs_b = _DEFS.get(id(b))
+                    if defs_b is None:
+                        defs_b = _DEFS[id(b)] = Defs(b)
+                    tds = defs_b.of(t["args"][1]["place"]["l"])
+                    idx = int(head[1:]) - 2
+                    if len(tds) == 1 and tds[0][0] == "stmt" and tds[0][4]["k"] == "agg" and 0 <= idx < len(tds[0][4]["ops"]):
+                        o = tds[0][4]["ops"][idx]
+                        l2 = o["place"]["l"] if o.get("k") in ("copy", "move") else None
+                        for _ in range(6):
+                            if l2 is None:
+                                break
+                            ds2 = defs_b.of(l2)
+                            if len(ds2) != 1:
+                                break
+                            if ds2[0][0] == "call":
+                                return ">".join([_root_producer(F, b, ds2[0][2], depth + 1)] + ([rest] if rest else []))
+                            rv2 = ds2[0][4]
+                            l2 = rv2["op"]["place"]["l"] if rv2["k"] in ("use", "cast") and rv2["op"].get("k") in ("copy", "move") else None
             inner = []
             for bi_, ct in cb.calls():
                 ty_ = cb.lty(ct["dest"]["l"]) if not ct["dest"]["p"] else None
@@ -179,13 +204,15 @@ def _root_producer(F, b, t, depth=0):
     l = a["place"]["l"]
     for _ in range(8):
         ds = defs.of(l)
+        if allow_param and not ds and b.is_closure() and 2 <= l <= b["arg_count"]:
+            return ">".join(["$%d" % l] + steps)      # the closure's own parameter (resolved by the caller of the closure)
         if len(ds) != 1:
             return name
         d = ds[0]
         if d[0] == "call":
             if not carries_solver_error((b.lty(d[2]["dest"]["l"]) or {}).get("s")):
                 return name
-            return ">".join([_root_producer(F, b, d[2], depth + 1)] + steps)
+            return ">".join([_root_producer(F, b, d[2], depth + 1, allow_param)] + steps)
         rv = d[4]
         if rv["k"] in ("use", "cast") and rv["op"].get("k") in ("copy", "move"):
             l = rv["op"]["place"]["l"]
